@@ -258,7 +258,9 @@ class AddMonitor(Handler):
         if free:
             rec.skip(self.name, "free_arithmetics")
             return
-        different_dim = a["ndim"] != b["ndim"]
+        # (a Histogram1D and a one-axis HistogramND keep their missed weight differently - three counters against one: operands of
+        # different kinds, like different dimensions)
+        different_dim = a["ndim"] != b["ndim"] or ("underflow" in a) != ("underflow" in b)
         incompatible = different_dim or (bins_clearly_different(a, b) and not call.bag["a_adaptive"])
         if call.exc is not None:
             rec.mon("C05.add.refusal")
@@ -316,7 +318,7 @@ def check_scale(rec: core.Recorder, *, op: str, pre: dict, post: dict, factor, d
         return
     with np.errstate(all="ignore"):
         if divide:
-            ef, ee = f0 / c, e0 / (c * c)
+            ef, ee = f0 / c, e0 / c / c  # (c * c may not be a float although the quotient is)
         else:
             ef, ee = f0 * c, e0 * (c * c)
     if rd.kind in "iu":
@@ -386,8 +388,9 @@ def check_scale(rec: core.Recorder, *, op: str, pre: dict, post: dict, factor, d
             if isinstance(factor, np.floating):
                 rel = max(rel, 8 * float(np.finfo(type(factor)).eps))
             rel = max(rel, 8 * float(pre.get("statistics_eps", 0)), 8 * float(post.get("statistics_eps", 0)))
-            if not _close(w1, w0 * k, abs(w0 * k), rel):
-                bad = ("weight", w0 * k, w1)
+            want_w = w0 / c if divide else w0 * c  # (1 / c need not be a float)
+            if not _close(w1, want_w, abs(want_w), rel):
+                bad = ("weight", want_w, w1)
             elif not (_close(s1[2], s0[2], 0) and _close(s1[3], s0[3], 0)):
                 bad = ("min/max", (s0[2], s0[3]), (s1[2], s1[3]))
             elif w0 != 0 and w1 != 0 and not math.isnan(w1):
